@@ -1,2 +1,384 @@
+//! C09 — Encodings are canonical and strict.
+//! (1) round trips of API-produced objects through every codec; (2) canonicality: for every
+//! candidate octet string b, decode(b) = Ok(x) implies encode(x) = b; (3) forbidden classes are Err.
+
+use crate::api::*;
 use crate::common::*;
-pub fn scenarios(_ctx: &Ctx) -> Vec<Scenario> { vec![] }
+use crate::refimpl as rf;
+use bls12_381_plus::{G1Affine, G1Projective, G2Affine, G2Projective, Scalar};
+use group::Curve;
+use rand::RngCore;
+use serde_json::json;
+use zkryptium::bbsplus::proof::BBSplusZKPoK;
+use zkryptium::utils::message::bbsplus_message::BBSplusMessage;
+
+const R_BE: &str = "73eda753299d7d483339d80809a1d80553bda402fffe5bfeffffffff00000001";
+const P_BE: &str = "1a0111ea397fe69a4b1ba7b6434bacd764774b84f38512bf6730d2a0f6b0f6241eabfffeb153ffffb9feffffffffaaab";
+
+#[derive(Clone, Copy, PartialEq, Debug)]
+enum Slot {
+    G1,
+    G2,
+    Sc,
+}
+
+/// Decoder under test: returns the re-encoding of the decoded object.
+type Dec = Box<dyn Fn(&[u8]) -> Result<Vec<u8>, String> + Send + Sync>;
+
+struct Codec {
+    name: &'static str,
+    dec: Dec,
+    /// (offset, kind, identity forbidden / zero forbidden)
+    slots: Vec<(usize, Slot, bool)>,
+    /// fixed length (decoder takes an array) => wrong lengths are not typable
+    fixed: Option<usize>,
+}
+
+fn add_be(a: &[u8], b: &[u8]) -> Vec<u8> {
+    let mut out = vec![0u8; a.len()];
+    let mut carry = 0u16;
+    for i in (0..a.len()).rev() {
+        let s = a[i] as u16 + b[i] as u16 + carry;
+        out[i] = s as u8;
+        carry = s >> 8;
+    }
+    out
+}
+
+fn scalar_patterns() -> Vec<(&'static str, Vec<u8>, bool)> {
+    // (name, bytes, must_be_rejected_everywhere)
+    let r = hex::decode(R_BE).unwrap();
+    let one = { let mut o = vec![0u8; 32]; o[31] = 1; o };
+    let rm1 = { let mut x = r.clone(); x[31] -= 1; x };
+    vec![
+        ("zero", vec![0u8; 32], false),
+        ("r-1", rm1, false),
+        ("r", r.clone(), true),
+        ("r+1", add_be(&r, &one), true),
+        ("2r", add_be(&r, &r), true),
+        ("2^256-1", vec![0xff; 32], true),
+    ]
+}
+
+/// G1 point patterns: (name, 48 bytes, must_be_rejected)
+fn g1_patterns(r: &mut impl RngCore, honest: &[u8]) -> Vec<(String, Vec<u8>, bool)> {
+    let mut v: Vec<(String, Vec<u8>, bool)> = vec![];
+    let mut x = honest.to_vec();
+    x[0] &= 0x7f;
+    v.push(("compression-flag-cleared".into(), x, true));
+    let mut x = honest.to_vec();
+    x[0] ^= 0x20;
+    v.push(("sort-flag-flipped".into(), x, false)); // valid encoding of -P: canonical
+    let mut inf = vec![0u8; 48];
+    inf[0] = 0xc0;
+    v.push(("infinity".into(), inf.clone(), false)); // canonical identity; forbidden only in some slots
+    let mut x = inf.clone();
+    x[0] = 0xe0;
+    v.push(("infinity+sort".into(), x, true));
+    let mut x = inf.clone();
+    x[47] = 1;
+    v.push(("infinity+body".into(), x, true));
+    let mut x = honest.to_vec();
+    x[0] |= 0x40;
+    v.push(("honest+infinity-flag".into(), x, true));
+    let p = hex::decode(P_BE).unwrap();
+    let mut x = p.clone();
+    x[0] |= 0x80;
+    v.push(("x=p".into(), x, true));
+    v.push(("all-ones".into(), vec![0xff; 48], true));
+    // x = p + x_small for a valid point with small x (non-canonical field element)
+    for _ in 0..200 {
+        let pt = (G1Projective::GENERATOR * crate::c04::rand_scalar(r)).to_affine().to_compressed();
+        let mut xb = pt.to_vec();
+        let flags = xb[0] & 0xe0;
+        xb[0] &= 0x1f;
+        if xb[0] < 0x05 {
+            let mut y = add_be(&xb, &p);
+            y[0] |= flags;
+            v.push(("x=p+x_small".into(), y, true));
+            break;
+        }
+    }
+    // off curve / on curve but outside the prime-order subgroup (found by search)
+    let (mut off, mut nosub) = (0, 0);
+    for _ in 0..400 {
+        let mut b = rand_bytes(r, 48);
+        b[0] = 0x80 | (b[0] & 0x3f) % 0x1a | (b[0] & 0x20);
+        let a: [u8; 48] = b.clone().try_into().unwrap();
+        match Option::<G1Affine>::from(G1Affine::from_compressed_unchecked(&a)) {
+            None if off < 3 => {
+                off += 1;
+                v.push((format!("off-curve#{off}"), b, true));
+            }
+            Some(pt) if !bool::from(pt.is_torsion_free()) && nosub < 3 => {
+                nosub += 1;
+                v.push((format!("non-subgroup#{nosub}"), b, true));
+            }
+            _ => {}
+        }
+        if off >= 3 && nosub >= 3 {
+            break;
+        }
+    }
+    v
+}
+
+fn g2_patterns(r: &mut impl RngCore, honest: &[u8]) -> Vec<(String, Vec<u8>, bool)> {
+    let mut v: Vec<(String, Vec<u8>, bool)> = vec![];
+    let mut x = honest.to_vec();
+    x[0] &= 0x7f;
+    v.push(("compression-flag-cleared".into(), x, true));
+    let mut x = honest.to_vec();
+    x[0] ^= 0x20;
+    v.push(("sort-flag-flipped".into(), x, false));
+    let mut inf = vec![0u8; 96];
+    inf[0] = 0xc0;
+    v.push(("infinity".into(), inf.clone(), false));
+    let mut x = inf.clone();
+    x[0] = 0xe0;
+    v.push(("infinity+sort".into(), x, true));
+    let mut x = inf.clone();
+    x[95] = 1;
+    v.push(("infinity+body".into(), x, true));
+    v.push(("all-ones".into(), vec![0xff; 96], true));
+    let p = hex::decode(P_BE).unwrap();
+    let mut x = honest.to_vec();
+    x[..48].copy_from_slice(&p);
+    x[0] |= 0x80;
+    v.push(("c1=p".into(), x, true));
+    let mut x = honest.to_vec();
+    x[48..].copy_from_slice(&p);
+    v.push(("c0=p".into(), x, true));
+    let (mut off, mut nosub) = (0, 0);
+    for _ in 0..400 {
+        let mut b = rand_bytes(r, 96);
+        b[0] = 0x80 | (b[0] & 0x3f) % 0x1a | (b[0] & 0x20);
+        b[48] %= 0x1a;
+        let a: [u8; 96] = b.clone().try_into().unwrap();
+        match Option::<G2Affine>::from(G2Affine::from_compressed_unchecked(&a)) {
+            None if off < 3 => {
+                off += 1;
+                v.push((format!("off-curve#{off}"), b, true));
+            }
+            Some(pt) if !bool::from(pt.is_torsion_free()) && nosub < 3 => {
+                nosub += 1;
+                v.push((format!("non-subgroup#{nosub}"), b, true));
+            }
+            _ => {}
+        }
+        if off >= 3 && nosub >= 3 {
+            break;
+        }
+    }
+    v
+}
+
+fn check(ctx: &Ctx, c: &Codec, suite: &str, kind: &str, pos: &str, b: &[u8], must_reject: bool) {
+    let case = format!("{}/{}/{}/{}", suite, c.name, kind, pos);
+    ctx.distinct(&case);
+    let m = ctx.call(&format!("decode/{}", c.name), &case, None, || (c.dec)(b));
+    match (&m.outcome, m.value) {
+        (Outcome::Ok, Some(re)) => {
+            if must_reject {
+                ctx.violation(&format!("C09:forbidden-accepted/{}/{}", c.name, kind.split('#').next().unwrap()), json!({"case":case,"input":hx_full(b)}));
+            } else if re != b {
+                ctx.violation(&format!("C09:non-canonical-accepted/{}/{}", c.name, kind.split('#').next().unwrap()), json!({"case":case,"input":hx_full(b),"reencoded":hx_full(&re)}));
+            }
+        }
+        (Outcome::Panic(p), _) => {
+            ctx.count("panics_seen(C08 judges them)", 1);
+            let _ = p;
+        }
+        _ => {}
+    }
+}
+
+fn codec_sweep<X: Sx>(ctx: &Ctx, idx: u64, which: usize) {
+    let mut r = ctx.rng("c09", idx);
+    let (sk, pk) = keypair::<X>(&mut r);
+    let msgs = gen_messages(&mut r, 4, 0);
+    let sig = Sig::<X>::sign(Some(&msgs), &sk, &pk, Some(b"hdr")).unwrap();
+    let proof = Pok::<X>::proof_gen(&pk, &sig.to_bytes(), Some(b"hdr"), None, Some(&msgs), Some(&[1])).unwrap();
+    let (com, bf) = Com::<X>::commit(Some(&msgs[..2])).unwrap();
+    let bsig = BSig::<X>::blind_sign(&sk, &pk, Some(&com.to_bytes()), None, Some(&msgs)).unwrap();
+    let u = 3usize;
+    let (cx, cy) = pk.to_coordinates();
+    let arr = |b: &[u8], n: usize| -> Result<Vec<u8>, String> { if b.len() == n { Ok(b.to_vec()) } else { Err("len".into()) } };
+    let codecs: Vec<(Codec, Vec<u8>)> = vec![
+        (Codec { name: "PublicKey", dec: Box::new(|b| BBSplusPublicKey::from_bytes(b).map(|k| k.to_bytes().to_vec()).map_err(|e| format!("{e:?}"))), slots: vec![(0, Slot::G2, true)], fixed: None }, pk.to_bytes().to_vec()),
+        (Codec { name: "SecretKey", dec: Box::new(|b| BBSplusSecretKey::from_bytes(b).map(|k| k.to_bytes().to_vec()).map_err(|e| format!("{e:?}"))), slots: vec![(0, Slot::Sc, false)], fixed: None }, sk.to_bytes().to_vec()),
+        (Codec { name: "Signature", dec: Box::new(move |b| { let a: [u8; 80] = arr(b, 80)?.try_into().unwrap(); Sig::<X>::from_bytes(&a).map(|s| s.to_bytes().to_vec()).map_err(|e| format!("{e:?}")) }), slots: vec![(0, Slot::G1, true), (48, Slot::Sc, true)], fixed: Some(80) }, sig.to_bytes().to_vec()),
+        (Codec { name: "BlindSignature", dec: Box::new(move |b| { let a: [u8; 80] = arr(b, 80)?.try_into().unwrap(); BSig::<X>::from_bytes(&a).map(|s| s.to_bytes().to_vec()).map_err(|e| format!("{e:?}")) }), slots: vec![(0, Slot::G1, true), (48, Slot::Sc, true)], fixed: Some(80) }, bsig.to_bytes().to_vec()),
+        (Codec { name: "PoKSignature", dec: Box::new(|b| Pok::<X>::from_bytes(b).map(|p| p.to_bytes()).map_err(|e| format!("{e:?}"))),
+                 slots: [(0, Slot::G1, true), (48, Slot::G1, true), (96, Slot::G1, true)].into_iter().chain((0..4 + u).map(|k| (144 + 32 * k, Slot::Sc, false))).collect(), fixed: None }, proof.to_bytes()),
+        (Codec { name: "Commitment", dec: Box::new(|b| Com::<X>::from_bytes(b).map(|p| p.to_bytes()).map_err(|e| format!("{e:?}"))),
+                 slots: std::iter::once((0, Slot::G1, false)).chain((0..4).map(|k| (48 + 32 * k, Slot::Sc, false))).collect(), fixed: None }, com.to_bytes()),
+        (Codec { name: "ZKPoK", dec: Box::new(|b| BBSplusZKPoK::from_bytes(b).map(|p| p.to_bytes()).map_err(|e| format!("{e:?}"))),
+                 slots: (0..4).map(|k| (32 * k, Slot::Sc, false)).collect(), fixed: None }, com.to_bytes()[48..].to_vec()),
+        (Codec { name: "BlindFactor", dec: Box::new(move |b| { let a: [u8; 32] = arr(b, 32)?.try_into().unwrap(); BlindFactor::from_bytes(&a).map(|s| s.to_bytes().to_vec()).map_err(|e| format!("{e:?}")) }), slots: vec![(0, Slot::Sc, false)], fixed: Some(32) }, bf.to_bytes().to_vec()),
+        (Codec { name: "MessageScalar", dec: Box::new(move |b| { let a: [u8; 32] = arr(b, 32)?.try_into().unwrap(); BBSplusMessage::from_bytes_be(&a).map(|s| s.to_bytes_be().to_vec()).map_err(|e| format!("{e:?}")) }), slots: vec![(0, Slot::Sc, false)], fixed: Some(32) }, rf::scalar_be(&crate::c04::rand_scalar(&mut r)).to_vec()),
+        (Codec { name: "PublicKeyCoordinates", dec: Box::new(move |b| {
+                    let a = arr(b, 192)?;
+                    BBSplusPublicKey::from_coordinates(a[..96].try_into().unwrap(), a[96..].try_into().unwrap())
+                        .map(|k| { let (x, y) = k.to_coordinates(); [x.to_vec(), y.to_vec()].concat() }).map_err(|e| format!("{e:?}")) }),
+                 slots: vec![], fixed: Some(192) }, [cx.to_vec(), cy.to_vec()].concat()),
+    ];
+    let suite = name::<X>();
+    let (c, honest) = &codecs[which % codecs.len()];
+    // honest must decode and re-encode to itself
+    check(ctx, c, suite, "honest", "-", honest, false);
+    match (c.dec)(honest) {
+        Ok(re) if &re == honest => {}
+        other => ctx.violation(&format!("C09:honest-roundtrip/{}", c.name), json!({"input":hx_full(honest),"got":format!("{:?}", other.map(|v| hx_full(&v)))})),
+    }
+    // all single-bit flips
+    for b in 0..honest.len() * 8 {
+        let mut x = honest.clone();
+        x[b / 8] ^= 1 << (b % 8);
+        check(ctx, c, suite, "bitflip", &b.to_string(), &x, false);
+    }
+    // extensions / truncations
+    if c.fixed.is_none() {
+        for k in 1..=64usize {
+            let mut x = honest.clone();
+            x.extend(vec![0u8; k]);
+            check(ctx, c, suite, "extended-zero", &k.to_string(), &x, k % 32 != 0 || c.slots.len() <= 1);
+            let mut x = honest.clone();
+            x.extend(rand_bytes(&mut r, k));
+            check(ctx, c, suite, "extended-random", &k.to_string(), &x, k % 32 != 0 || c.slots.len() <= 1);
+            if k <= honest.len() {
+                let x = &honest[..honest.len() - k];
+                check(ctx, c, suite, "truncated", &k.to_string(), x, k % 32 != 0 || c.slots.len() <= 1);
+            }
+        }
+        check(ctx, c, suite, "empty", "-", &[], true);
+    }
+    // slot patterns
+    for (si, (off, kind, forbid_neutral)) in c.slots.iter().enumerate() {
+        match kind {
+            Slot::Sc => {
+                for (nm, pat, reject) in scalar_patterns() {
+                    let mut x = honest.clone();
+                    x[*off..off + 32].copy_from_slice(&pat);
+                    let must = reject || (nm == "zero" && *forbid_neutral);
+                    check(ctx, c, suite, &format!("scalar-{nm}"), &format!("slot{si}"), &x, must);
+                }
+            }
+            Slot::G1 => {
+                for (nm, pat, reject) in g1_patterns(&mut r, &honest[*off..off + 48]) {
+                    let mut x = honest.clone();
+                    x[*off..off + 48].copy_from_slice(&pat);
+                    let must = reject || (nm == "infinity" && *forbid_neutral);
+                    check(ctx, c, suite, &format!("g1-{nm}"), &format!("slot{si}"), &x, must);
+                }
+            }
+            Slot::G2 => {
+                for (nm, pat, reject) in g2_patterns(&mut r, &honest[*off..off + 96]) {
+                    let mut x = honest.clone();
+                    x[*off..off + 96].copy_from_slice(&pat);
+                    let must = reject || (nm == "infinity" && *forbid_neutral);
+                    check(ctx, c, suite, &format!("g2-{nm}"), &format!("slot{si}"), &x, must);
+                }
+            }
+        }
+    }
+    if c.name == "PublicKeyCoordinates" {
+        // identity in uncompressed form; flags; coordinate >= p; off-curve y
+        let mut inf = vec![0u8; 192];
+        inf[0] = 0x40;
+        check(ctx, c, suite, "uncompressed-infinity", "-", &inf, true);
+        check(ctx, c, suite, "all-zero", "-", &vec![0u8; 192], true);
+        let mut x = honest.clone();
+        x[0] |= 0x80;
+        check(ctx, c, suite, "compression-flag-set", "-", &x, true);
+        let mut x = honest.clone();
+        x[0] |= 0x20;
+        check(ctx, c, suite, "sort-flag-set", "-", &x, true);
+        let p = hex::decode(P_BE).unwrap();
+        for k in 0..4 {
+            let mut x = honest.clone();
+            x[48 * k..48 * (k + 1)].copy_from_slice(&p);
+            check(ctx, c, suite, "coordinate=p", &k.to_string(), &x, true);
+        }
+        // a point of the curve outside the subgroup, uncompressed
+        for _ in 0..200 {
+            let mut b = rand_bytes(&mut r, 96);
+            b[0] = 0x80 | (b[0] & 0x3f) % 0x1a;
+            b[48] %= 0x1a;
+            if let Some(pt) = Option::<G2Affine>::from(G2Affine::from_compressed_unchecked(&b.clone().try_into().unwrap())) {
+                if !bool::from(pt.is_torsion_free()) {
+                    check(ctx, c, suite, "non-subgroup", "-", &pt.to_uncompressed(), true);
+                    break;
+                }
+            }
+        }
+    }
+    ctx.sample(json!({"suite":suite,"codec":c.name,"honest":hx(honest),"classes":"honest, all single-bit flips, extensions/truncations 1..=64, scalar and point patterns per slot"}));
+}
+
+/// (1) round trips of API-produced objects through every codec incl. JSON
+fn roundtrips<X: Sx>(ctx: &Ctx, idx: u64) {
+    let mut r = ctx.rng("c09r", idx);
+    for rep in 0..ctx.t(6, 40) {
+        let l = rand_range(&mut r, 6);
+        let m = rand_range(&mut r, 4);
+        let (sk, pk) = keypair::<X>(&mut r);
+        let msgs = gen_messages(&mut r, l, rep);
+        let cm = gen_messages(&mut r, m, rep + 1);
+        let case = format!("{}/roundtrip/L{}M{}/r{}", name::<X>(), l, m, rep);
+        ctx.distinct(&case);
+        let bad = |what: &str| ctx.violation(&format!("C09:roundtrip/{}", what), json!({"case":case}));
+        macro_rules! json_rt {
+            ($what:expr, $v:expr, $t:ty) => {{
+                let js = ctx.call_plain(concat!("json/", $what), &case, || serde_json::to_string(&$v).unwrap()).value.unwrap();
+                match ctx.call(concat!("json/", $what), &case, None, || serde_json::from_str::<$t>(&js)).value {
+                    Some(v2) if v2 == $v => {}
+                    _ => bad(concat!($what, "/json")),
+                }
+            }};
+        }
+        if BBSplusPublicKey::from_bytes(&pk.to_bytes()).ok().as_ref() != Some(&pk) { bad("PublicKey/octets"); }
+        let (x, y) = pk.to_coordinates();
+        if BBSplusPublicKey::from_coordinates(&x, &y).ok().as_ref() != Some(&pk) { bad("PublicKey/coordinates"); }
+        json_rt!("PublicKey", pk, BBSplusPublicKey);
+        if BBSplusSecretKey::from_bytes(&sk.to_bytes()).ok().as_ref() != Some(&sk) { bad("SecretKey/octets"); }
+        json_rt!("SecretKey", sk, BBSplusSecretKey);
+        if sk.public_key() != pk { bad("SecretKey/public_key"); }
+        let kp = Kp::<X>::generate(&rand_bytes(&mut r, 40), None, None).unwrap();
+        json_rt!("KeyPair", kp, Kp<X>);
+        let sig = Sig::<X>::sign(Some(&msgs), &sk, &pk, None).unwrap();
+        if Sig::<X>::from_bytes(&sig.to_bytes()).ok().as_ref() != Some(&sig) { bad("Signature/octets"); }
+        json_rt!("Signature", sig, Sig<X>);
+        let d: Vec<usize> = (0..l).filter(|_| r.next_u32() % 2 == 0).collect();
+        let proof = Pok::<X>::proof_gen(&pk, &sig.to_bytes(), None, Some(b"p"), Some(&msgs), Some(&d)).unwrap();
+        if Pok::<X>::from_bytes(&proof.to_bytes()).ok().as_ref() != Some(&proof) { bad("PoKSignature/octets"); }
+        json_rt!("PoKSignature", proof, Pok<X>);
+        let (com, bf) = Com::<X>::commit(Some(&cm)).unwrap();
+        if Com::<X>::from_bytes(&com.to_bytes()).ok().as_ref() != Some(&com) { bad("Commitment/octets"); }
+        json_rt!("Commitment", com, Com<X>);
+        if BlindFactor::from_bytes(&bf.to_bytes()).map(|b| b.to_bytes()).ok() != Some(bf.to_bytes()) { bad("BlindFactor/octets"); }
+        let bsig = BSig::<X>::blind_sign(&sk, &pk, Some(&com.to_bytes()), None, Some(&msgs)).unwrap();
+        if BSig::<X>::from_bytes(&bsig.to_bytes()).ok().as_ref() != Some(&bsig) { bad("BlindSignature/octets"); }
+        json_rt!("BlindSignature", bsig, BSig<X>);
+        let zk = BBSplusZKPoK::from_bytes(&com.to_bytes()[48..]).unwrap();
+        if BBSplusZKPoK::from_bytes(&zk.to_bytes()).ok().as_ref() != Some(&zk) { bad("ZKPoK/octets"); }
+        ctx.count("objects_round_tripped", 12);
+    }
+    let _ = (G2Projective::IDENTITY, Scalar::ZERO);
+}
+
+pub fn scenarios(ctx: &Ctx) -> Vec<Scenario> {
+    let mut v = Vec::new();
+    for rep in 0..ctx.t(1u64, 6u64) {
+        for which in 0..10usize {
+            let i = rep * 100 + which as u64;
+            v.push(scenario(format!("sweep/sha/{which}"), move |c| codec_sweep::<Sha>(c, i, which)));
+            v.push(scenario(format!("sweep/shake/{which}"), move |c| codec_sweep::<Shake>(c, i + 50, which)));
+        }
+    }
+    for rep in 0..ctx.t(2u64, 8u64) {
+        v.push(scenario("roundtrip/sha", move |c| roundtrips::<Sha>(c, 1000 + rep)));
+        v.push(scenario("roundtrip/shake", move |c| roundtrips::<Shake>(c, 2000 + rep)));
+    }
+    v
+}
